@@ -21,8 +21,41 @@ COQ_MODULE = "Channel.Model"; RUN_FN = "run"
 THEOREMS = ["C07_account", "C07_account_none_twice", "C07_run_completes", "C07_idle_implies_queue_empty", "C07_delivery_time",
             "C07_started_delivered_or_in_flight", "C07_busy_span", "C07_unbusy_stamp", "C07_fifo_start", "C07_direct_start",
             "C07_fifo_order", "C07_zero_jitter_preserves_order", "C07_queue_limit"]
-QUICK_N = 3000; THOROUGH_N = 200000
+QUICK_N = 3000; THOROUGH_N = 120000
 XCHECK_N = 40
+CLAIM = dict(
+    text="Machine-checked (Coq 8.16, axiom-free) for every transmission-time function tx : len -> ns, every latency, jitter and "
+         "drop policy (Drop | Queue(None) | Queue(Some limit), limit 0 included), every script of send bursts (any times, sizes, "
+         "bursts inside one handler) and every jitter oracle, at every event boundary of the channel's event loop: (account) the "
+         "script's messages are, as a multiset, exactly delivered + dropped-busy + dropped-queue-full + queued + in flight + not yet "
+         "offered, none twice, and the loop runs dry with everything delivered or dropped; (no message stuck) an idle channel has an "
+         "empty queue, idle = no Unbusy event pending, busy = exactly one, stamped with the finish time; (delivery time) every "
+         "delivery happens at start + tx(len) + latency + j with j the sample drawn for that transmission, j = 0 without jitter and "
+         "j < jitter whenever the oracle's samples are, and every started transmission is delivered then or still in flight for that "
+         "time; (busy span, in event order) a transmission with tx > 0 makes the channel busy until the Unbusy event stamped "
+         "start + tx, in between every offer is dropped or queued and is_busy/transmission_finish_time read busy/that time, outside "
+         "offers start at once; (FIFO) a queued message starts only as head of the queue, in the handler of the Unbusy event of that "
+         "very instant, direct starts only with an empty queue; (zero jitter) deliveries in order are an initial piece of the accepted "
+         "offers in offer order; (queue limit) acc_bytes = sum of queued lengths and a busy offer is queued iff acc + len <= limit. "
+         "The model (send_message, unbusy, drop handling, the Unbusy/Exit/wake-up events ordered by the two-list event-set "
+         "specification that C01 proves the calendar queue refines) is tied to des on every run by differential execution against the "
+         "real Sim/Channel API (two modules, one channel, scripted sender, logging receiver, ChannelProbe, is_busy / "
+         "transmission_finish_time / Debug queue size sampled in handlers), exact comparison incl. jittered seeded runs, plus a monitor "
+         "stating C07 on the implementation's log alone. Pinned-code defects F5 (stuck queue) and F15 (same-instant reorder with zero "
+         "latency) have exists-witnesses in coq/Refuted/C07.v and regression scripts in corpus/C07.",
+    note="Trusted: Coq kernel; extraction (ExtrOcamlBasic) cross-checked in-Coq by vm_compute each run; harness and generator bound the "
+         "tie to the code. calculate_busy (f64) and the rng are oracles of the model: tx enters as a per-script table that is recomputed "
+         "with the same IEEE operations, echoed by the implementation and checked to be size*8/bitrate rounded to ns; jitter samples of "
+         "jittered runs are read off the implementation's own seeded run, only their range [0, jitter) is asserted (F6). 'Busy exactly "
+         "for the transmission time' is stated in event order (an offer or sample processed in the finish instant before the Unbusy "
+         "event still sees the channel busy). A transmission time below 0.5 ns rounds to 0 and does not occupy the channel; with "
+         "jitter > 0 deliveries may reorder; queued messages are not re-checked against the sender's state (not part of C07). The "
+         "HandleMessageEvent following an exit in the same instant is folded into the Exit event. One sender, one channel; module "
+         "shutdown, several channels in a chain (C08) and u64/usize overflow are out of scope.",
+    technique="Coq invariant proofs over a closed event loop on the C01 event-set specification (trace well-formedness predicate, "
+              "count-based multiset accounting, timing and order invariants, termination measure) + differential correspondence check "
+              "+ refutation witnesses for the pinned variants",
+    design="6/C07")
 RULE = ("scripts from a structured generator: bitrate in {0,1,8,1e3,1e9,2e12,usize::MAX,random}, total sizes {64,65,1088,65600}, "
         "latency {0,1,1e3,1e6,random}, jitter 0 (75%) or {1,2,3,10,1e3,1e6} (the oracle is then read off a first run of the "
         "implementation), Drop | Queue(None) | Queue(Some 0|len|2len-1|3len|random), 1..14 offers whose gaps are 0 (burst inside one "
